@@ -779,4 +779,52 @@ theorem clean_unsubscribe_composed (f : Sid → C09.Str) (hinj : ∀ a b, f a = 
   refine ⟨?_, by rw [hdo]; exact href⟩
   rw [← href, hu.2.1]; rfl
 
+/-- **all_or_nothing_composed**: a subscribe call of the profile (nothing subscribed before) is, on C09's handler
+    model, a run of `async_subscribe` calls (`c09SubLoop`) over a prefix of the profile's services — if all of
+    them succeed the profile's routing table afterwards is exactly C09's; if one raises, C09's `async_unsubscribe`
+    for every SID of the bookkeeping (the roll-back) empties C09's table, which is again the profile's. -/
+theorem all_or_nothing_composed (f : Sid → C09.Str) (hinj : ∀ a b, f a = f b → a = b) (c : C09.Cfg) (T : Int)
+    (th : Option C09.Str) (rs : List C09.Reaction) (n : Nat) (auto : Bool) (st : St) (h : Core st)
+    (hpre : (st.halted || !st.subs.isEmpty || st.task.alive) = false) :
+    ∃ calls : List (Nat × C09.Reaction), calls.map (·.1) = (List.range n).take calls.length ∧
+      ((c09SubLoop c T calls (mapRt f st.routed)).2 = true →
+          mapRt f (doSub genCfg n auto st).routed = (c09SubLoop c T calls (mapRt f st.routed)).1)
+      ∧ ((c09SubLoop c T calls (mapRt f st.routed)).2 = false →
+          mapRt f (doSub genCfg n auto st).routed = []
+          ∧ ∃ sids : List Sid, (C09.unsubAll c (sids.map f) (c09SubLoop c T calls (mapRt f st.routed)).1 rs).rt = []) := by
+  obtain ⟨calls, h1, h2⟩ := subLoop_refines f hinj genCfg c st.now T th (List.range n) (st.emit (.call st.now (.sub auto)))
+  have hcoreS := subLoop_core genCfg st.now (List.range n) (st.emit (.call st.now (.sub auto))) (h.emit _)
+  refine ⟨calls, h1, ?_, ?_⟩
+  · intro hok
+    have h2' : c09SubLoop c T calls (mapRt f st.routed) = _ := h2
+    rw [h2'] at hok ⊢
+    unfold doSub
+    simp only [hpre, Bool.false_eq_true, if_false]
+    have hnow : (st.emit (.call st.now (.sub auto))).now = st.now := rfl
+    simp only [hnow]
+    generalize subLoop genCfg st.now (List.range n) (st.emit (.call st.now (.sub auto))) = L at hok ⊢
+    obtain ⟨S, err⟩ := L
+    cases err with
+    | some e => simp at hok
+    | none => dsimp only; split <;> rfl
+  · intro hfail
+    have h2' : c09SubLoop c T calls (mapRt f st.routed) = _ := h2
+    rw [h2'] at hfail ⊢
+    unfold doSub
+    simp only [hpre, Bool.false_eq_true, if_false]
+    have hnow : (st.emit (.call st.now (.sub auto))).now = st.now := rfl
+    simp only [hnow]
+    generalize subLoop genCfg st.now (List.range n) (st.emit (.call st.now (.sub auto))) = L at hfail hcoreS ⊢
+    obtain ⟨S, err⟩ := L
+    cases err with
+    | none => simp at hfail
+    | some e =>
+      dsimp only at hcoreS ⊢
+      have hu := unsubscribeServices_clean S hcoreS.1
+      have href := unsubscribe_refines f hinj c S rs
+      refine ⟨?_, keys S.subs, ?_⟩
+      · show mapRt f (unsubscribeServices S).routed = []
+        rw [hu.2.1]; rfl
+      · rw [← href, hu.2.1]; rfl
+
 end Upnp.C12
